@@ -1,0 +1,48 @@
+/*-
+  verif.h -- verification hooks (compiled only with -DKJN_LBZIP2_VERIF)
+
+  Nothing in this file exists unless KJN_LBZIP2_VERIF is defined; the shipped
+  program is unchanged.  The functions declared here are provided by the
+  external verification harness, the verif_probe_*() functions by lbzip2.
+*/
+
+#ifndef VERIF_H
+#define VERIF_H
+
+#ifdef KJN_LBZIP2_VERIF
+
+#include <stddef.h>             /* size_t */
+
+/* Read-only description of one fixed-capacity queue. */
+struct verif_q {
+  const char *name;             /* queue name */
+  const void *root;             /* storage allocated by *_init() */
+  unsigned size;                /* current number of elements */
+  unsigned elem;                /* sizeof one element */
+};
+
+/* H1: let the harness override I/O granularity.  mode: 0 = compression
+   (ignored by the harness), 1 = decompression, 2 = -cdf copy.  out_granul
+   may be NULL. */
+void verif_limits(int mode, size_t *in_granul, size_t *out_granul);
+
+/* H3: task-level schedule trace; begin is 1 before run(), 0 after. */
+void verif_task(const char *name, int begin);
+
+/* H2: reach probe, pure observation. */
+void verif_reach(const char *site);
+#define VERIF_REACH(s) verif_reach(s)
+
+/* H2: read-only probes; fill at most max entries of q, return the number
+   filled; st receives a few scalar state variables (see each definition). */
+unsigned verif_probe_process(struct verif_q *q, unsigned max, long *st);
+unsigned verif_probe_compress(struct verif_q *q, unsigned max, long *st);
+unsigned verif_probe_expand(struct verif_q *q, unsigned max, long *st);
+
+#else
+
+#define VERIF_REACH(s) ((void)0)
+
+#endif
+
+#endif
